@@ -411,6 +411,25 @@ func (e *Env) eval(x ast.Expr) Val {
 	switch n := x.(type) {
 	case *ast.ParenExpr:
 		return e.eval(n.X)
+	case *ast.TypeAssertExpr:
+		// x.(T) for a scalar type T: the value boxed in the interface (the same
+		// unbox function the translation of the code uses); meaningful only
+		// where the dynamic type is T
+		v := e.eval(n.X)
+		var ty types.Type
+		if id, ok := n.Type.(*ast.Ident); ok {
+			if bt, ok := convNames[id.Name]; ok {
+				ty = bt
+			}
+		}
+		if ty == nil {
+			ty = e.namedType(n.Type)
+		}
+		if ty == nil || v.K != VScalar || t.mode.scalarSort(ty) == "" {
+			e.fail("unsupported type assertion in a contract expression")
+		}
+		un := t.declareFun("unbox."+typeKey(ty), []string{"Iface"}, t.mode.scalarSort(ty))
+		return scalar(ty, sx(un, v.S))
 	case *ast.Ident:
 		return e.ident(n.Name)
 	case *ast.BasicLit:
